@@ -184,3 +184,55 @@ def reset_discipline(model, rel):
                 ok = any(('%s.number_of_bits' % enc) in g and ('==' in g or '<=' in g) for g in gs)
                 out.append((f, c, ok, ' && '.join(gs)))
     return out
+
+
+DATE_FIELDS = {'year': 4, 'month': 2, 'day': 2, 'hour': 2, 'minute': 2, 'second': 2, 'microsecond': 6}
+
+
+def unpadded_date_fields(model, select=lambda name: True, rel='asn1tools/codecs/__init__.py'):
+    """Time formatters (`*_from_datetime`) must place every numeric field of the date with a fixed, zero-filled width: through
+    strftime directives, or through a format spec such as {:02d} / {:06d} / %06d.  A field formatted with `{}` / str() loses its
+    leading zeros (fraction .05 -> .5), which changes the value the text denotes.
+    -> [(function, number of fields formatted outside strftime, [(node, field, spec, width)])]"""
+    out = []
+    mod = model.mod(rel)
+    for fname, fdef in sorted(mod.functions.items()):
+        if not fname.endswith('_from_datetime') or not select(fname):
+            continue
+        bad = []
+        nfmt = 0
+        for n in walk_no_nested(fdef):
+            parts = []       # (expression, format spec or None)
+            if isinstance(n, ast.Call) and isinstance(n.func, ast.Attribute) and n.func.attr == 'format' and isinstance(n.func.value, ast.Constant) and isinstance(n.func.value.value, str):
+                specs = re.findall(r'\{(\d*)(?::([^}]*))?\}', n.func.value.value)
+                for i, a_ in enumerate(n.args):
+                    spec = None
+                    if all(idx == '' for idx, _ in specs):
+                        if i < len(specs):
+                            spec = specs[i][1]
+                    else:
+                        for idx, sp in specs:
+                            if idx == str(i):
+                                spec = sp
+                    parts.append((a_, spec))
+            elif isinstance(n, ast.JoinedStr):
+                for v_ in n.values:
+                    if isinstance(v_, ast.FormattedValue):
+                        spec = ''.join(c_.value for c_ in v_.format_spec.values if isinstance(c_, ast.Constant)) if v_.format_spec is not None else None
+                        parts.append((v_.value, spec))
+            elif isinstance(n, ast.BinOp) and isinstance(n.op, ast.Mod) and isinstance(n.left, ast.Constant) and isinstance(n.left.value, str):
+                specs = re.findall(r'%([0-9]*)[dis]', n.left.value)
+                args_ = n.right.elts if isinstance(n.right, ast.Tuple) else [n.right]
+                for i, a_ in enumerate(args_):
+                    parts.append((a_, (specs[i] + 'd') if i < len(specs) and specs[i] else None))
+            elif isinstance(n, ast.Call) and isinstance(n.func, ast.Name) and n.func.id in ('str', 'repr') and n.args:
+                parts.append((n.args[0], None))
+            for e_, spec in parts:
+                for x_ in ast.walk(e_):
+                    if isinstance(x_, ast.Attribute) and x_.attr in DATE_FIELDS:
+                        nfmt += 1
+                        width = DATE_FIELDS[x_.attr]
+                        if not (spec is not None and re.match(r'^0%d[d]?$' % width, spec or '') is not None):
+                            bad.append((n, x_.attr, spec, width))
+        out.append((fdef, nfmt, bad))
+    return out
